@@ -184,6 +184,8 @@ def oracle_drops(cfg, ops, trace):
         elif toks[0] == "S" and s.rq == 0 and s.wq == 0:
             if s.live != len(s.map):
                 return f"op {i} after sync: {s.live} live value objects but {len(s.map)} resident entries"
+            if "lk" in s.raw and int(s.raw["lk"]) != len(s.map):
+                return f"op {i} after sync: {s.raw['lk']} live key objects but {len(s.map)} resident entries"
     return None
 
 
@@ -230,6 +232,13 @@ def oracle_no_loss(cfg, ops, trace):
     pending_gets = {}
     prev = None
     cap = cfg["cap"]
+    # no capacity pressure ever: even if nothing were ever purged, everything inserted fits
+    maxw = {}
+    for t in ops:
+        tk = t.split()
+        if tk[0] == "I":
+            maxw[int(tk[1])] = max(maxw.get(int(tk[1]), 0), weigh(cfg, int(tk[1]), int(tk[2])))
+    no_pressure = cap is None or sum(maxw.values()) <= cap
     for i, toks, out, state, now in steps(cfg, trace):
         if failed(out):
             return None
@@ -239,17 +248,17 @@ def oracle_no_loss(cfg, ops, trace):
         o = toks[0]
         unsync = cfg["kind"] == "unsync"
         acc = None if unsync else weak_acc
-        # (1) no capacity: every live entry is returned
-        if cap is None:
+        # (1) no capacity (pressure): every live entry is returned
+        if no_pressure:
             if o in ("G", "C"):
                 k = int(toks[1])
-                if ref.live(k, now, acc) and out in ("-", "0"):
-                    return f"op {i} `{' '.join(toks)}`: live entry {k}->{ref.r[k][0]} not returned (no max_capacity set)"
+                if ref.live(k, now, acc) and ((o == "G" and out == "-") or (o == "C" and out == "0")):
+                    return f"op {i} `{' '.join(toks)}`: live entry {k}->{ref.r[k][0]} not returned although everything ever inserted fits (max_capacity {cap})"
             if o == "T":
                 got = dict(parse_pairs(out))
                 for k in ref.r:
                     if ref.live(k, now, acc) and got.get(k) != ref.r[k][0]:
-                        return f"op {i} iteration misses live entry {k}->{ref.r[k][0]} (no max_capacity set)"
+                        return f"op {i} iteration misses live entry {k}->{ref.r[k][0]} although everything ever inserted fits (max_capacity {cap})"
         # (2) unsync: a new key that fits is admitted and evicts nothing; removal causes
         if unsync and prev is not None:
             removed = set(prev.map) - set(s.map)
@@ -265,10 +274,20 @@ def oracle_no_loss(cfg, ops, trace):
                 if not why:
                     return (f"op {i} `{' '.join(toks)}`: entry {k} removed although it is neither invalidated, "
                             f"expired, nor is the cache over capacity (weighted_size {prev.ws}, cap {cap})")
-            if w_new is not None and (cap is None or prev.ws + w_new <= cap):
-                k = int(toks[1])
-                if k not in s.map:
-                    return f"op {i} `{' '.join(toks)}`: new key of weight {w_new} fits (weighted_size {prev.ws}, cap {cap}) but was not admitted"
+            if w_new is not None:
+                # room computed from the residents physically held when the insert decides: the entries
+                # of the previous snapshot minus those the insert's own purge removes (at most one batch)
+                exp = [k for k, e in prev.map.items() if expired_u(cfg, e, now)]
+                purged = set(exp) if len(exp) <= 100 else set()
+                phys = sum(e["w"] for k, e in prev.map.items() if k not in purged)
+                if cap is None or phys + w_new <= cap:
+                    k = int(toks[1])
+                    if k not in s.map:
+                        return (f"op {i} `{' '.join(toks)}`: new key of weight {w_new} fits (held weight {phys}, "
+                                f"cap {cap}) but was not admitted")
+                    lost = [x for x in prev.map if x not in purged and x not in s.map]
+                    if lost:
+                        return f"op {i} `{' '.join(toks)}`: new key fits (held weight {phys}, cap {cap}) but {lost} were evicted"
         # (3) refill probe: all probe keys retained
         if o == "T" and cap is not None and any(t.startswith(f"I {PROBE_BASE}") for t in ops):
             got = dict(parse_pairs(out))
@@ -310,49 +329,58 @@ def oracle_lru(cfg, ops, trace):
             return None
         o = toks[0]
         if prev is not None and (unsync or o == "S"):
-            order = [k for k, _, _ in prev.prob]
+            # unsync: the deque order before the op; sync: the order in which maintenance applies the
+            # recorded reads and writes = the recency order of the history (maintenance after every op)
+            order = [k for k, _, _ in prev.prob] if unsync else \
+                [k for k in recency if k in prev.map and prev.map[k]["adm"]]
             removed = set(prev.map) - set(s.map)
             if unsync:
-                size_removed = [k for k in removed if not (
-                    (o == "X" and int(toks[1]) == k) or o == "A" or
-                    (o == "P" and pred_of(toks[1:])(k, prev.map[k]["v"])) or expired_u(cfg, prev.map[k], now))]
-                survivors_order = [k for k in order if not (k in removed and k not in size_removed)]
+                expired_removed = {k for k in removed if expired_u(cfg, prev.map[k], now)}
+                # removed (or removed and re-inserted) by the operation itself, after the eviction
+                amb = set()
+                if o in ("X", "I"):
+                    amb = {int(toks[1])}
+                elif o == "A":
+                    amb = set(prev.map)
+                elif o == "P":
+                    amb = {k for k, e in prev.map.items() if pred_of(toks[1:])(k, e["v"])}
             else:
-                size_removed = [k for k in removed if not expired_s(cfg, prev.map[k], prev.va, now)
-                                and prev.map[k]["adm"]]
-                survivors_order = [k for k in order if not (k in removed and k not in size_removed)]
-            if size_removed:
-                n = len(size_removed)
-                prefix = survivors_order[:n]
-                if set(prefix) != set(size_removed):
-                    return (f"op {i} `{' '.join(toks)}`: entries {sorted(size_removed)} removed for size while less "
-                            f"recently used {[k for k in prefix if k not in size_removed]} stay (LRU order {survivors_order})")
-                if unsync:
-                    # minimality
+                expired_removed = {k for k in removed if expired_s(cfg, prev.map[k], prev.va, now)
+                                   or not prev.map[k]["adm"]}
+                amb = set()
+            order2 = [k for k in order if k not in expired_removed]
+            size_set = [k for k in order2 if k in removed and k not in amb]
+            if size_set:
+                j = max(order2.index(k) for k in size_set)
+                prefix = order2[: j + 1]
+                stay = [k for k in prefix if k not in removed and k not in amb]
+                if stay:
+                    return (f"op {i} `{' '.join(toks)}`: entries {sorted(size_set)} removed for size while less "
+                            f"recently used {stay} stay (LRU order {order2})")
+                if unsync and not (set(prefix) & amb):
+                    # minimality: the excess first (evict_lru_entries), then the admission victims
                     w = lambda k: prev.map[k]["w"]
-                    ws_after_expiry = prev.ws - sum(w(k) for k in removed if k not in size_removed)
-                    excess = max(0, ws_after_expiry - cap)
-                    # the excess part first (evict_lru), then admission victims
+                    excess = max(0, prev.ws - sum(w(k) for k in expired_removed) - cap)
                     freed = 0
-                    j = 0
-                    while j < n and freed < excess:
-                        freed += w(prefix[j])
-                        j += 1
-                    victims = prefix[j:]
+                    jj = 0
+                    while jj < len(prefix) and freed < excess:
+                        freed += w(prefix[jj])
+                        jj += 1
+                    victims = prefix[jj:]
                     if victims:
                         if not (o == "I" and int(toks[1]) not in prev.map):
                             return f"op {i} `{' '.join(toks)}`: {victims} removed beyond the excess {excess} without an admission"
                         need = weigh(cfg, int(toks[1]), int(toks[2]))
                         if sum(w(k) for k in victims[:-1]) >= need:
                             return f"op {i}: admission of weight {need} removed {victims}, a shorter prefix suffices"
+        # recency order of the history
+        if o == "I" or (o == "G" and out != "-"):
+            k = int(toks[1])
+            if k in recency:
+                recency.remove(k)
+            recency.append(k)
+        recency = [k for k in recency if k in s.map]
         if unsync:
-            # recency order of the history
-            if o == "I" or (o == "G" and out != "-"):
-                k = int(toks[1])
-                if k in recency:
-                    recency.remove(k)
-                recency.append(k)
-            recency = [k for k in recency if k in s.map]
             got = [k for k, _, _ in s.prob]
             if got != recency:
                 return f"op {i} `{' '.join(toks)}`: LRU order {got} differs from the recency order of the history {recency}"
